@@ -79,9 +79,9 @@ Lemma lexpr_eqb_refl a : lexpr_eqb a a = true.
 Proof. now apply lexpr_eqb_eq. Qed.
 
 (* the user may write the two operands of dot in either order *)
-Lemma mk_dot_comm a b : show a <> show b -> mk_dot a b = mk_dot b a.
+Lemma mk_dot_comm a b : may_mat a = false -> may_mat b = false -> show a <> show b -> mk_dot a b = mk_dot b a.
 Proof.
-  intros Hne. unfold mk_dot.
+  intros Ma Mb Hne. unfold mk_dot. rewrite Ma, Mb. cbn [orb negb andb].
   destruct (String.ltb (show b) (show a)) eqn:E1; destruct (String.ltb (show a) (show b)) eqn:E2; auto.
   - apply str_ltb_leb in E1, E2. destruct E1 as [L1 _], E2 as [L2 _].
     exfalso. apply Hne. now apply String.leb_antisym.
@@ -92,8 +92,13 @@ Proof.
     assert (String.ltb (show a) (show b) = true) by (apply str_ltb_leb; split; auto). congruence.
 Qed.
 
+(* ... except when an operand may be matrix-valued (the gradient of a vector function): matrix.vector and
+   vector.matrix are different products and the order written by the user is kept (/repo d07302d) *)
+Lemma mk_dot_keeps_matrix_order a b : may_mat a || may_mat b = true -> mk_dot a b = ENode "Dot" [a; b].
+Proof. intros H. unfold mk_dot. now rewrite H. Qed.
+
 Lemma mk_dot_cases a b : mk_dot a b = ENode "Dot" [a; b] \/ mk_dot a b = ENode "Dot" [b; a].
-Proof. unfold mk_dot. destruct (String.ltb (show b) (show a)); auto. Qed.
+Proof. unfold mk_dot. destruct (negb (may_mat a || may_mat b) && String.ltb (show b) (show a)); auto. Qed.
 
 (* ============================================ classification: admitted shapes *)
 (* totality on the admitted fragment: each admitted left-hand side is accepted, with
